@@ -70,34 +70,37 @@ def lexLe : List Nat → List Nat → Bool
 
 def maxLex (l : List (List Nat)) : List Nat := l.foldl (fun m x => if lexLe m x then x else m) []
 
+/-- first error of two checks in sequence -/
+def firstOf {ε} (a b : Option ε) : Option ε :=
+  match a with
+  | some e => some e
+  | none => b
+
+/-- the checks of one potential; `maxAm` is the highest momentum among the element's potentials -/
+def validatePot (val : ν → Rat) (maxAm : List Nat) (p : Pot ν) : Option VErr :=
+  let nexp := p.rexp.length
+  if p.gexp.length ≠ nexp then some VErr.ecpLen else
+  let strict : Bool := nexp > 1 || p.am != maxAm
+  firstOf (firstErr (p.coefs.map fun g =>
+      if g.length ≠ nexp then some VErr.ecpRowLen
+      else if strict && allZero val g then some VErr.ecpZeroCol else none))
+    (if hasDup (p.coefs.map (·.map val)) then some VErr.ecpDupCol else
+     if strict && (rowsOf p.coefs).any (allZero val) then some VErr.ecpUnused else none)
+
 def validatePots (val : ν → Rat) (pots : List (Pot ν)) : Option VErr :=
   if pots.any (fun p => p.am.length > 1) then some .ecpFused else
   if hasDup (pots.map (·.am.headD 0)) then some .ecpDupAm else
-  let maxAm := maxLex (pots.map (·.am))
-  firstErr (pots.map fun p =>
-    let nexp := p.rexp.length
-    if p.gexp.length ≠ nexp then some VErr.ecpLen else
-    let strict : Bool := nexp > 1 || p.am != maxAm
-    match firstErr (p.coefs.map fun g =>
-        if g.length ≠ nexp then some VErr.ecpRowLen
-        else if strict && allZero val g then some VErr.ecpZeroCol else none) with
-    | some e => some e
-    | none =>
-    if hasDup (p.coefs.map (·.map val)) then some VErr.ecpDupCol else
-    if strict && (rowsOf p.coefs).any (allZero val) then some VErr.ecpUnused else none)
+  firstErr (pots.map (validatePot val (maxLex (pots.map (·.am)))))
 
 /-- `_validate_element` plus the schema's `uniqueItems` on the shell list -/
 def validateElement [DecidableEq ν] (val : ν → Rat) (shells : Option (List (Shell ν))) (pots : Option (List (Pot ν)))
     (hasElectrons : Bool) : Option VErr :=
-  match (match shells with
-         | some ss => (match validateShells val ss with
-                       | some e => some e
-                       | none => if hasDup ss then some VErr.dupShell else none)
-         | none => none) with
-  | some e => some e
-  | none =>
-    match pots with
-    | some ps => if !hasElectrons then some .ecpNoElectrons else validatePots val ps
-    | none => none
+  firstOf
+    (match shells with
+     | some ss => firstOf (validateShells val ss) (if hasDup ss then some VErr.dupShell else none)
+     | none => none)
+    (match pots with
+     | some ps => if !hasElectrons then some .ecpNoElectrons else validatePots val ps
+     | none => none)
 
 end BSE
